@@ -68,7 +68,7 @@ Proof.
   { intros t f Ht Ha. pose proof (f1_act_lt fb HF1 f Ha) as Hf. destruct (K f Hf) as (fd & Efd & Hok).
     unfold factor_ok in Hok. apply andb_true_iff in Hok.
     destruct Hok as [_ Hc]. rewrite forallb_forall in Hc. specialize (Hc t ltac:(apply in_seq; cbn [code_sem s_trials]; unfold T in Ht; lia)).
-    rewrite <- (applies_lappl fb HF1 f fd t Efd).
+    rewrite <- (applies_lappl fb HF1 HT f fd t Efd).
     destruct (get_cell q f t) as [l|] eqn:Ec.
     - rewrite !andb_true_iff in Hc. destruct Hc as [[[Hap Hl] _] _]. split; [exact Hap|].
       apply Nat.ltb_lt in Hl. cbn [code_factor f_nlevels] in Hl. now rewrite (nlevels_design fb f fd Efd).
@@ -114,19 +114,20 @@ Proof.
   intros Hv Ht Hf Hn. pose proof (valid_is_shape q Hv) as Hs.
   destruct (implied_facts fb HF1 HT f Hf Hn) as (fd & w & Efd & Ew & Hd & W1 & W2 & W3 & Htot).
   pose proof Hs as (_ & R & C & _).
-  pose proof (proj1 (factor_ok_impl fb HF1 HT q f fd w Efd Ew (R f Hf)) (valid_factor_ok q f fd Hv Efd) t Ht) as Hok.
+  pose proof (impl_sustain fb HF1 HT f Hf Hn) as Hsu.
+  pose proof (proj1 (factor_ok_impl fb HT q f fd w Efd Ew Hsu (R f Hf)) (valid_factor_ok q f fd Hv Efd) t Ht) as Hok.
   unfold cell_impl, factor_at. rewrite Efd, Ew.
   destruct (get_cell q f t) as [l0|] eqn:El0.
   - destruct Hok as (Hap & Hl0 & Hacc). rewrite Hap.
     assert (Ew' : window_args q (code_factor fb f fd) (dwin fd w) t
                   = window_args (dec_act fb (img q)) (code_factor fb f fd) (dwin fd w) t).
-    { apply (impl_window_ext fb HF1 HT _ _ f fd w t W3 Hap Ew). intros d t' Hdd Ht'.
+    { apply (impl_window_ext fb HF1 HT _ _ f fd w t Hsu W3 Hap Ew). intros d t' Hdd Ht'.
       pose proof (proj1 (Forall_forall _ _) Hd d Hdd) as Hds. cbv beta in Hds.
       destruct (sact_lappl fb HF1 d t' Hds) as [Hda _].
       rewrite (dec_act_cell fb _ t' d ltac:(lia) (f1_act_lt fb HF1 d Hda)).
       symmetry. apply (img_cell_act q t' d Hs ltac:(lia) Hda). }
     rewrite <- Ew'. symmetry. apply (find_only fb HF1 HT); [|exact Hl0|exact Hacc].
-    apply Htot. apply (impl_window_in fb HF1 HT q f fd w t W3 Hap Ew). intros d t' Hdd Ht'.
+    apply Htot. apply (impl_window_in fb HF1 HT q f fd w t Hsu W3 Hap Ew). intros d t' Hdd Ht'.
     pose proof (proj1 (Forall_forall _ _) Hd d Hdd) as Hds. cbv beta in Hds.
     destruct (sact_lappl fb HF1 d t' Hds) as [Hda Hdl]. exact (C t' d ltac:(lia) Hda Hdl).
   - now rewrite Hok.
@@ -356,4 +357,25 @@ Proof.
   split; [vm_compute; reflexivity|]. split; [vm_compute; lia|]. split; [vm_compute; reflexivity|].
   split; [vm_compute; reflexivity|]. split; [vm_compute; reflexivity|]. split; [vm_compute; reflexivity|].
   split; [vm_compute; reflexivity|]. split; [vm_compute; eexists; split; reflexivity|]. split; vm_compute; reflexivity.
+Qed.
+
+(** Nest: the outer factor is sustained over the two trials of the inner block,
+    the inner crossing is completed inside every group of two trials *)
+Definition ex_nest : flat :=
+  {| fl_design := [xsimple; xsimple]; fl_act := [0; 1];
+     fl_crossings := [[0]; [1]]; fl_sustains := [2; 1]; fl_weights := [1; 1]; fl_sizes := [4; 2];
+     fl_preambles := [0; 0]; fl_alignment := EqualPreamble; fl_alignment_preamble := 0;
+     fl_min_trials := 0; fl_trials := 4; fl_rcc := true; fl_exclude := [];
+     fl_excluded_derived := [];
+     fl_constraints := [FCross; FConsistency; FSustain];
+     fl_errors_fail := false |}.
+
+Example ex_nest_facts :
+  in_f1 ex_nest = true /\ 0 < T ex_nest /\ sustain_of ex_nest 0 = 2 /\
+  (exists b, compile ex_nest = COk b /\ b_fresh b = 84%Z) /\
+  length (all_valid (code_sem ex_nest)) = 8 /\
+  hd [] (all_valid (code_sem ex_nest)) = [[Some 1; Some 1; Some 0; Some 0]; [Some 1; Some 0; Some 1; Some 0]].
+Proof.
+  split; [vm_compute; reflexivity|]. split; [vm_compute; lia|]. split; [vm_compute; reflexivity|].
+  split; [vm_compute; eexists; split; reflexivity|]. split; vm_compute; reflexivity.
 Qed.
